@@ -8,7 +8,20 @@ usage: tools/seedcheck.py <patch.diff> [--props C01,C03] [--tier quick]
 import os, sys, json, subprocess, io, contextlib, time
 HERE = os.path.dirname(os.path.dirname(os.path.abspath(__file__)))
 sys.path.insert(0, HERE)
-WT = '/tmp/evalwt'
+WT = os.environ.get('EVALWT') or '/tmp/evalwt_%d' % os.getpid()
+
+
+def _cleanup():
+    if os.path.isdir(WT) and not os.environ.get('EVALWT'):
+        subprocess.run(['git', '-C', '/repo', 'worktree', 'remove', '--force',
+                        WT], stdout=subprocess.DEVNULL,
+                       stderr=subprocess.DEVNULL)
+        subprocess.run(['git', '-C', '/repo', 'worktree', 'prune'],
+                       stdout=subprocess.DEVNULL, stderr=subprocess.DEVNULL)
+
+
+import atexit
+atexit.register(_cleanup)
 
 
 def sh(*a, **k):
